@@ -9,7 +9,7 @@ Environment stubs installed in BOTH backends (each is part of every claim):
   * tty        os.isatty(0) -> spec['tty']
   * mounts     trashcli.fstab.mount_points_listing.os_mount_points -> virtual mount table
                (psutil reads /proc/mounts, which neither backend has)
-  * uid        os.getuid -> spec['uid']
+  * uid        os.getuid -> spec['uid'], os.geteuid -> spec['uid'] + 1 (never called by the unchanged tree)
   * argv/stdout/stderr  sys.argv, sys.stdout, sys.stderr (and the logging handler of
                trashcli.lib.logger) are redirected for the duration of the call
 """
@@ -403,6 +403,7 @@ def run_on_real(spec, mounts):
     os.environ.update(spec['env'])
     uid = spec['uid']
     os.getuid = lambda: uid
+    os.geteuid = lambda: uid + 1   # as in the facade: effective uid != real uid
     tty = spec['tty']
     os.isatty = lambda fd: (fd in (0, 1, 2)) if tty is True else (False if not tty else fd in tty)
     if spec.get('cwd'):
